@@ -27,6 +27,7 @@ def effOk (s t : St) : Eff → Bool
   | .addReader => s.rxOpen && t.rxOpen && t.reader && t.parentTx == s.parentTx
   | .removeReader => s.rxOpen && t.rxOpen && !t.reader && t.parentTx == s.parentTx
   | .freeRx => s.rxOpen && !t.rxOpen && !s.reader && !t.reader && t.parentTx == s.parentTx
+  | .start => t.reader == s.reader && t.rxOpen == s.rxOpen && t.parentTx == s.parentTx
 
 def frameOk (s t : St) : Bool := t.reader == s.reader && t.rxOpen == s.rxOpen && t.parentTx == s.parentTx
 
@@ -37,24 +38,53 @@ def outOk : Beh → Option Outcome → Bool
   | .die, o => o == some .raisedCPE
   | .dieMidSend, o => o == some .raisedErr || o == some .retOk
 
+/-- … and for an invocation whose awaiting task was cancelled: the cancellation, nothing else -/
+def outOkC (b : Beh) (s : St) : Bool := if s.cancelled then s.out == some .cancelled else outOk b s.out
+
 def isWait (P : List Instr) (s : St) : Bool :=
-  match P[s.pc]? with | some i => i.op == .pollWait || i.op == .wait | none => false
+  match P[s.pc]? with | some i => i.op == .pollWait || i.op == .selectWait || i.op == .wait | none => false
 
 def isJoin (P : List Instr) (s : St) : Bool := match P[s.pc]? with | some i => i.op == .join | none => false
 
-/-- everything we need to know about one reachable local state -/
-def stateOk (P : List Instr) (Rk : List Nat) (b : Beh) (big : Bool) (R : List St) (s : St) : Bool :=
-  (next P b big s).all (fun t => R.contains t && decide (rank Rk t < rank Rk s))   -- closed; every step decreases the rank
-  && (s.final || !(next P b big s).isEmpty)                                        -- never stuck before the end
-  && (!s.final || (s.released && outOk b s.out))                                   -- at the end: released, right outcome
-  && (match parentStep P s with | some (t, eff) => effOk s t eff | none => true)
-  && (match childStep b big s with | some t => frameOk s t | none => true)
-  && (!s.reader || s.rxOpen)                                                       -- the reader is removed before rx is closed
-  && (!syncBlocked P s || (isJoin P s && s.cpc == .sent))                          -- the only synchronous wait: join after the child has sent
-  && (!s.parked || isWait P s)                                                     -- suspended only at an `await event.wait()`
+/-- everything we need to know about one reachable local state, clause by clause -/
+-- closed (cancellations by the environment included); every step decreases the rank
+def okClosed (P : List Instr) (Rk : List Nat) (b : Beh) (big : Bool) (R : Buckets) (s : St) : Bool :=
+  (next P b big s).all (fun t => memB R t && decide (rank Rk t < rank Rk s))
+-- never stuck before the end: a step of its own (parent, child, event loop), not a cancellation
+def okProgress (P : List Instr) (b : Beh) (big : Bool) (s : St) : Bool := s.final || !(sysNext P b big s).isEmpty
+-- at the end — cancelled or not —: everything released, the right outcome
+def okFinal (b : Beh) (s : St) : Bool := !s.final || (s.released && outOkC b s)
+def okEff (P : List Instr) (s : St) : Bool := match parentStep P s with | some (t, eff) => effOk s t eff | none => true
+def okChildFrame (b : Beh) (big : Bool) (s : St) : Bool := match childStep b big s with | some t => frameOk s t | none => true
+-- a cancellation touches no table by itself
+def okCancelFrame (P : List Instr) (s : St) : Bool := match cancelStep P s with | some t => frameOk s t | none => true
+-- the reader is removed before rx is closed
+def okReader (s : St) : Bool := !s.reader || s.rxOpen
+-- the only synchronous wait: join after the child has sent
+def okSync (P : List Instr) (s : St) : Bool := !syncBlocked P s || (isJoin P s && s.cpc == .sent)
+-- suspended only at an `await event.wait()`
+def okParked (P : List Instr) (s : St) : Bool := !s.parked || isWait P s
+-- a synchronous wait ends with the exit of the invocation's own child and with nothing else: that step is enabled, after it the parent
+-- can go on, and every other step of the invocation (and a cancellation cannot happen: the coroutine is not suspended) leaves it blocked
+def okUnblock (P : List Instr) (b : Beh) (big : Bool) (s : St) : Bool :=
+  !syncBlocked P s ||
+    ((childStep b big s).isSome && (childStep b big s).all (fun t => t.cpc == .exited && (parentStep P t).isSome && !syncBlocked P t)
+      && (next P b big s).all (fun t => t.cpc == .exited || syncBlocked P t))
+-- no local step makes a foreign copy of the write end
+def okNoForeign (s : St) : Bool := !s.foreignTx
+
+def stateOk (P : List Instr) (Rk : List Nat) (b : Beh) (big : Bool) (R : Buckets) (s : St) : Bool :=
+  [okClosed P Rk b big R s, okProgress P b big s, okFinal b s, okEff P s, okChildFrame b big s, okCancelFrame P s, okReader s,
+   okSync P s, okParked P s, okUnblock P b big s, okNoForeign s].all id
+
+/-- the checks of `stateOk` that do not involve cancellation, on the states a protocol reaches by itself -/
+def sysCheck (P : List Instr) (Rk : List Nat) (b : Beh) (big : Bool) : Bool :=
+  (reachSysB P b big).all (fun bk => bk.all fun s =>
+    (sysNext P b big s).all (fun t => memB (reachSysB P b big) t && decide (rank Rk t < rank Rk s))
+    && (s.final || !(sysNext P b big s).isEmpty) && (!s.final || (s.released && outOk b s.out)))
 
 def localCheck (P : List Instr) (Rk : List Nat) (c : Beh × Bool) : Bool :=
-  (reach P c.1 c.2).contains St.init && (reach P c.1 c.2).all (stateOk P Rk c.1 c.2 (reach P c.1 c.2))
+  memB (reachB P c.1 c.2) St.init && (reachB P c.1 c.2).all (fun bk => bk.all (stateOk P Rk c.1 c.2 (reachB P c.1 c.2)))
 
 /-- **the finite core**: for every child behaviour, on the reachable set of the generated protocol -/
 theorem local_ok : cfgs.all (localCheck prog progRank) = true := by decide +kernel
@@ -67,70 +97,99 @@ theorem lcheck (b : Beh) (big : Bool) : localCheck prog progRank (b, big) = true
   rw [List.all_eq_true] at h
   exact h _ (cfgs_all b big)
 
+/-- `memB` is membership: the bucketing only decides which states are compared -/
+theorem memB_sound {R : Buckets} {t : St} (h : memB R t = true) : t ∈ R.flatten := by
+  unfold memB at h
+  split at h
+  · next bk hbk =>
+    simp only [List.any_eq_true, beq_iff_eq] at h
+    obtain ⟨p, hp, rfl⟩ := h
+    exact List.mem_flatten.2 ⟨bk, List.mem_of_getElem? hbk, hp⟩
+  · simp at h
+
 theorem init_reach (b : Beh) (big : Bool) : LReach b big St.init := by
   have h := lcheck b big
   simp only [localCheck, Bool.and_eq_true] at h
-  simpa [LReach] using h.1
+  exact memB_sound h.1
 
 theorem state_ok {b : Beh} {big : Bool} {s : St} (hs : LReach b big s) :
-    stateOk prog progRank b big (reach prog b big) s = true := by
+    stateOk prog progRank b big (reachB prog b big) s = true := by
   have h := lcheck b big
   simp only [localCheck, Bool.and_eq_true, List.all_eq_true] at h
-  exact h.2 s hs
+  obtain ⟨bk, hbk, hs'⟩ := List.mem_flatten.1 hs
+  exact h.2 bk hbk s hs'
+
+/-- one clause of `stateOk` -/
+theorem state_ok_clause {b : Beh} {big : Bool} {s : St} (hs : LReach b big s) (c : Bool)
+    (hc : c ∈ [okClosed prog progRank b big (reachB prog b big) s, okProgress prog b big s, okFinal b s, okEff prog s, okChildFrame b big s,
+               okCancelFrame prog s, okReader s, okSync prog s, okParked prog s, okUnblock prog b big s, okNoForeign s]) : c = true := by
+  have h := state_ok hs
+  simp only [stateOk, List.all_eq_true] at h
+  exact h c hc
 
 theorem local_closed {b big s t} (hs : LReach b big s) (ht : t ∈ next prog b big s) : LReach b big t := by
-  have h := state_ok hs
-  simp only [stateOk, Bool.and_eq_true, List.all_eq_true, decide_eq_true_eq] at h
-  have := (h.1.1.1.1.1.1.1 t ht).1
-  simpa [LReach] using this
+  have h := state_ok_clause hs (okClosed prog progRank b big (reachB prog b big) s) (by simp)
+  simp only [okClosed, Bool.and_eq_true, List.all_eq_true, decide_eq_true_eq] at h
+  exact memB_sound (h t ht).1
 
 theorem local_rank {b big s t} (hs : LReach b big s) (ht : t ∈ next prog b big s) : rank progRank t < rank progRank s := by
-  have h := state_ok hs
-  simp only [stateOk, Bool.and_eq_true, List.all_eq_true, decide_eq_true_eq] at h
-  exact (h.1.1.1.1.1.1.1 t ht).2
+  have h := state_ok_clause hs (okClosed prog progRank b big (reachB prog b big) s) (by simp)
+  simp only [okClosed, Bool.and_eq_true, List.all_eq_true, decide_eq_true_eq] at h
+  exact (h t ht).2
 
-theorem local_progress {b big s} (hs : LReach b big s) (hnf : s.final = false) : ∃ t, t ∈ next prog b big s := by
-  have h := state_ok hs
-  simp only [stateOk, Bool.and_eq_true] at h
-  have h2 := h.1.1.1.1.1.1.2
-  simp [hnf] at h2
-  exact List.exists_mem_of_ne_nil _ h2
+theorem sys_in_next {P : List Instr} {b : Beh} {big : Bool} {s t : St} (h : t ∈ sysNext P b big s) : t ∈ next P b big s := by
+  simp [next, h]
 
-theorem local_final {b big s} (hs : LReach b big s) (hf : s.final = true) : s.released = true ∧ outOk b s.out = true := by
-  have h := state_ok hs
-  simp only [stateOk, Bool.and_eq_true] at h
-  have h2 := h.1.1.1.1.1.2
-  simpa [hf] using h2
+/-- a pending invocation has a step of its own — of its parent, its child or the event loop; not merely a cancellation -/
+theorem local_progress {b big s} (hs : LReach b big s) (hnf : s.final = false) : ∃ t, t ∈ sysNext prog b big s := by
+  have h := state_ok_clause hs (okProgress prog b big s) (by simp)
+  simp [okProgress, hnf] at h
+  exact List.exists_mem_of_ne_nil _ h
+
+theorem local_final {b big s} (hs : LReach b big s) (hf : s.final = true) : s.released = true ∧ outOkC b s = true := by
+  have h := state_ok_clause hs (okFinal b s) (by simp)
+  simpa [okFinal, hf] using h
 
 theorem local_eff {b big s t eff} (hs : LReach b big s) (hp : parentStep prog s = some (t, eff)) : effOk s t eff = true := by
-  have h := state_ok hs
-  simp only [stateOk, Bool.and_eq_true] at h
-  have h2 := h.1.1.1.1.2
-  simpa [hp] using h2
+  have h := state_ok_clause hs (okEff prog s) (by simp)
+  simpa [okEff, hp] using h
 
 theorem local_child_frame {b big s t} (hs : LReach b big s) (hc : childStep b big s = some t) : frameOk s t = true := by
-  have h := state_ok hs
-  simp only [stateOk, Bool.and_eq_true] at h
-  have h2 := h.1.1.1.2
-  simpa [hc] using h2
+  have h := state_ok_clause hs (okChildFrame b big s) (by simp)
+  simpa [okChildFrame, hc] using h
+
+theorem local_cancel_frame {b big s t} (hs : LReach b big s) (hc : cancelStep prog s = some t) : frameOk s t = true := by
+  have h := state_ok_clause hs (okCancelFrame prog s) (by simp)
+  simpa [okCancelFrame, hc] using h
 
 theorem local_reader_open {b big s} (hs : LReach b big s) (hr : s.reader = true) : s.rxOpen = true := by
-  have h := state_ok hs
-  simp only [stateOk, Bool.and_eq_true] at h
-  have h2 := h.1.1.2
-  simpa [hr] using h2
+  have h := state_ok_clause hs (okReader s) (by simp)
+  simpa [okReader, hr] using h
 
 theorem local_sync {b big s} (hs : LReach b big s) (hb : syncBlocked prog s = true) : isJoin prog s = true ∧ s.cpc = .sent := by
-  have h := state_ok hs
-  simp only [stateOk, Bool.and_eq_true] at h
-  have h2 := h.1.2
-  simpa [hb] using h2
+  have h := state_ok_clause hs (okSync prog s) (by simp)
+  simpa [okSync, hb] using h
 
 theorem local_parked {b big s} (hs : LReach b big s) (hp : s.parked = true) : isWait prog s = true := by
-  have h := state_ok hs
-  simp only [stateOk, Bool.and_eq_true] at h
-  have h2 := h.2
-  simpa [hp] using h2
+  have h := state_ok_clause hs (okParked prog s) (by simp)
+  simpa [okParked, hp] using h
+
+theorem local_unblock {b big s} (hs : LReach b big s) (hb : syncBlocked prog s = true) :
+    (∃ t, childStep b big s = some t ∧ t.cpc = .exited ∧ (parentStep prog t).isSome = true ∧ syncBlocked prog t = false) ∧
+    (∀ t ∈ next prog b big s, t.cpc = .exited ∨ syncBlocked prog t = true) := by
+  have h := state_ok_clause hs (okUnblock prog b big s) (by simp)
+  simp only [okUnblock, hb, Bool.not_true, Bool.false_or, Bool.and_eq_true, List.all_eq_true, Bool.or_eq_true, beq_iff_eq] at h
+  obtain ⟨⟨h1, h2⟩, h3⟩ := h
+  refine ⟨?_, h3⟩
+  cases hc : childStep b big s with
+  | none => simp [hc] at h1
+  | some t =>
+    simp only [hc, Option.all_some, Bool.and_eq_true, beq_iff_eq, Bool.not_eq_true'] at h2
+    exact ⟨t, rfl, h2.1.1, h2.1.2, h2.2⟩
+
+theorem local_no_foreign {b big s} (hs : LReach b big s) : s.foreignTx = false := by
+  have h := state_ok_clause hs (okNoForeign s) (by simp)
+  simpa [okNoForeign] using h
 
 /-! ## the global machine: list and table lemmas -/
 
@@ -158,6 +217,15 @@ theorem lowestFree_fresh (used : List Nat) : lowestFree used ∉ used := by
   split
   · next n hn => have := List.find?_some hn; simpa using this
   · intro h; have := maxOf_ge h; omega
+
+/-- … also above any number of descriptors the process holds besides -/
+theorem allocFd_fresh (base : Nat) (used : List Nat) : allocFd base used ∉ used := by
+  intro h
+  apply lowestFree_fresh ((used.filter (fun u => base ≤ u)).map (fun u => u - base))
+  simp only [List.mem_map, List.mem_filter, decide_eq_true_eq]
+  exact ⟨allocFd base used, ⟨h, by simp [allocFd]⟩, by simp [allocFd]⟩
+
+theorem allocFd_ge (base : Nat) (used : List Nat) : base ≤ allocFd base used := by simp [allocFd]
 
 theorem rx_mem_used {invs : List Loc} {j : Nat} {lj : Loc} {fd : Nat} (h : invs[j]? = some lj) (hrx : lj.rx = some fd) :
     fd ∈ usedFds invs := by
@@ -296,26 +364,69 @@ theorem wf_same_tbl {g : G} (hwf : WF g) {i : Nat} {l l' : Loc}
 
 /-! ## steps of the global machine keep the invariant -/
 
-theorem gParent_some {i : Nat} {g g' : G} (h : gParent prog i g = some g') :
-    ∃ l t eff, g.invs[i]? = some l ∧ parentStep prog l.st = some (t, eff) ∧ g' = applyEff i l t eff g := by
-  unfold gParent at h
+/-! ### no child inherits another invocation's write end (generated fact) — a step rewrites ONE invocation -/
+
+/-- the coroutine is never suspended between `Pipe()` and the parent's `tx.close()` (generated fact `awaitsWhileWriteEndOpen = []`),
+    so no child is forked while another invocation's write end is open in the parent -/
+theorem inheritOthers_false : inheritOthers = false := by decide
+
+theorem postExit_false (i : Nat) (s t : St) (g : G) : postExit false i s t g = g := by
+  simp [postExit, releaseHeir]
+
+/-- what a parent step does to the global state, given that fact: the invocation's own entry and the reader table -/
+def applyEffC (r w : Nat) (i : Nat) (l : Loc) (t : St) (eff : Eff) (g : G) : G :=
+  match eff with
+  | .none => { g with invs := g.invs.set i { l with st := t } }
+  | .start => { g with invs := g.invs.set i { l with st := t } }
+  | .allocPipe =>
+      { g with invs := g.invs.set i { l with st := { t with rxHigh := decide (fdSetSize ≤ r) }, rx := some r, tx := some w } }
+  | .freeTx => { g with invs := g.invs.set i { l with st := t, tx := none } }
+  | .addReader =>
+      { invs := g.invs.set i { l with st := t },
+        tbl := match l.rx with | some fd => tblPut fd i g.tbl | none => g.tbl }
+  | .removeReader =>
+      { invs := g.invs.set i { l with st := t },
+        tbl := match l.rx with | some fd => tblErase fd g.tbl | none => g.tbl }
+  | .freeRx =>
+      { invs := g.invs.set i { l with st := t, rx := none },
+        tbl := match l.rx with | some fd => tblMarkDead fd g.tbl | none => g.tbl }
+
+theorem applyEff_eq (r w i : Nat) (l : Loc) (t : St) (eff : Eff) (g : G) : applyEff r w i l t eff g = applyEffC r w i l t eff g := by
+  cases eff <;> simp [applyEff, applyEffI, applyEffC, inheritOthers_false, postExit_false, applyStart] <;> rfl
+
+theorem gParent_some {i r w : Nat} {g g' : G} (h : gParentAt prog i r w g = some g') :
+    ∃ l t eff, g.invs[i]? = some l ∧ parentStep prog l.st = some (t, eff) ∧ g' = applyEffC r w i l t eff g := by
+  unfold gParentAt gParentAtI at h
   split at h
   · simp at h
   · next l hl =>
     split at h
     · simp at h
-    · next t eff hp => exact ⟨l, t, eff, hl, hp, by simpa using h.symm⟩
+    · next t eff hp =>
+      refine ⟨l, t, eff, hl, hp, ?_⟩
+      rw [← applyEff_eq]
+      simpa [applyEff] using h.symm
 
-theorem gChild_some {i : Nat} {g g' : G} (h : gChild i g = some g') :
-    ∃ l t, g.invs[i]? = some l ∧ childStep (childBeh l.callee) l.big l.st = some t ∧
-      g' = { g with invs := g.invs.set i { l with st := t } } := by
-  unfold gChild at h
+theorem gCancel_some {i : Nat} {g g' : G} (h : gCancel prog i g = some g') :
+    ∃ l t, g.invs[i]? = some l ∧ cancelStep prog l.st = some t ∧ g' = { g with invs := g.invs.set i { l with st := t } } := by
+  unfold gCancel at h
   split at h
   · simp at h
   · next l hl =>
     split at h
     · simp at h
     · next t hc => exact ⟨l, t, hl, hc, by simpa using h.symm⟩
+
+theorem gChild_some {i : Nat} {g g' : G} (h : gChild i g = some g') :
+    ∃ l t, g.invs[i]? = some l ∧ childStep (childBeh l.callee) l.big l.st = some t ∧
+      g' = { g with invs := g.invs.set i { l with st := t } } := by
+  unfold gChild gChildI at h
+  split at h
+  · simp at h
+  · next l hl =>
+    split at h
+    · simp at h
+    · next t hc => exact ⟨l, t, hl, hc, by simpa [inheritOthers_false, postExit_false] using h.symm⟩
 
 theorem gCallback_some {k : Nat} {g g' : G} (h : gCallback k g = some g') :
     ∃ e p o, g.tbl[k]? = some e ∧ e.live = true ∧ g.invs.find? (fun l => l.rx == some e.fd) = some p ∧
@@ -342,14 +453,28 @@ theorem gCallback_some {k : Nat} {g g' : G} (h : gCallback k g = some g') :
             · next hev =>
               refine ⟨e, p, o, he, by simpa using hlive, hp, by simpa using hread, ho, by simpa using hev, by simpa using h.symm⟩
 
-theorem parent_in_next {b : Beh} {big : Bool} {s t : St} {eff : Eff} (h : parentStep prog s = some (t, eff)) :
+theorem parent_in_next {b : Beh} {big : Bool} {s t : St} {eff : Eff} (h : parentStep prog s = some (t, eff)) (hne : eff ≠ .allocPipe) :
     t ∈ next prog b big s := by
-  simp [next, h]
+  simp [next, sysNext, parentNext, h, hne]
+
+/-- the step that makes the pipe: both descriptor ranges are successors -/
+theorem parent_alloc_in_next {b : Beh} {big : Bool} {s t : St} (h : parentStep prog s = some (t, .allocPipe)) (hi : Bool) :
+    { t with rxHigh := hi } ∈ next prog b big s := by
+  cases hi <;> simp [next, sysNext, parentNext, h]
+
+theorem parentNext_some {P : List Instr} {s t : St} (h : t ∈ parentNext P s) : ∃ r, parentStep P s = some r := by
+  unfold parentNext at h
+  split at h
+  · simp at h
+  · next t' eff hp => exact ⟨_, hp⟩
 
 theorem child_in_next {b : Beh} {big : Bool} {s t : St} (h : childStep b big s = some t) : t ∈ next prog b big s := by
-  simp [next, h]
+  simp [next, sysNext, h]
 
 theorem loop_in_next {b : Beh} {big : Bool} {s t : St} (h : loopStep s = some t) : t ∈ next prog b big s := by
+  simp [next, sysNext, h]
+
+theorem cancel_in_next {b : Beh} {big : Bool} {s t : St} (h : cancelStep prog s = some t) : t ∈ next prog b big s := by
   simp [next, h]
 
 /-- under the invariant, the pipe whose readability triggers the callback of entry `e` is the pipe of `e.owner` -/
@@ -367,13 +492,13 @@ theorem callback_owner {g : G} (hwf : WF g) {e : Entry} {p o : Loc} (he : e ∈ 
   rw [ho] at hj; cases hj
   exact ⟨rfl, h1, h2⟩
 
-theorem wf_parent {g g' : G} (hwf : WF g) {i : Nat} (h : gParent prog i g = some g') : WF g' := by
+theorem wf_parent {g g' : G} (hwf : WF g) {i r w : Nat} (hr : r ∉ usedFds g.invs) (h : gParentAt prog i r w g = some g') : WF g' := by
   obtain ⟨l, t, eff, hi, hp, rfl⟩ := gParent_some h
   have hlr := hwf.reach i l hi
   have hrx := hwf.rxIff i l hi
   have htx := hwf.txIff i l hi
   have heff := local_eff hlr hp
-  have hreach' : LReach (childBeh l.callee) l.big t := local_closed hlr (parent_in_next hp)
+  have hreach' : eff ≠ .allocPipe → LReach (childBeh l.callee) l.big t := fun hne => local_closed hlr (parent_in_next hp hne)
   -- entries at another invocation's fd do not exist
   have hown : ∀ e ∈ g.tbl, ∀ fd, l.rx = some fd → e.fd = fd → e.owner = i := by
     intro e he fd hfd hefd
@@ -386,28 +511,37 @@ theorem wf_parent {g g' : G} (hwf : WF g) {i : Nat} (h : gParent prog i g = some
     exact ⟨h2, h1⟩
   cases eff with
   | none =>
+    have hreach' := hreach' (by decide)
     simp only [effOk, Bool.and_eq_true, beq_iff_eq] at heff
     exact wf_same_tbl hwf hi hreach' (by simp [hrx, heff.1.2]) (by simp [htx, heff.2]) (fun fd h => Or.inl h) heff.1.1 (fun _ => rfl)
   | freeTx =>
+    have hreach' := hreach' (by decide)
     simp only [effOk, Bool.and_eq_true, beq_iff_eq, Bool.not_eq_true'] at heff
     exact wf_same_tbl hwf hi hreach' (by simp [hrx, heff.2]) (by simp [heff.1.1.2]) (fun fd h => Or.inl h) heff.1.2 (fun _ => rfl)
+  | start =>
+    have hreach' := hreach' (by decide)
+    simp only [effOk, Bool.and_eq_true, beq_iff_eq] at heff
+    exact wf_same_tbl hwf hi hreach' (by simp [hrx, heff.1.2]) (by simp [htx, heff.2]) (fun fd h => Or.inl h) heff.1.1 (fun _ => rfl)
   | allocPipe =>
+    have hreachA : LReach (childBeh l.callee) l.big { t with rxHigh := decide (fdSetSize ≤ r) } :=
+      local_closed hlr (parent_alloc_in_next hp _)
     simp only [effOk, Bool.and_eq_true, Bool.not_eq_true'] at heff
-    refine wf_same_tbl hwf hi hreach' (by simp [heff.1.1.2]) (by simp [heff.1.2]) ?_ (by simp [heff.2, heff.1.1.1.2]) ?_
+    refine wf_same_tbl hwf hi hreachA (by simp [heff.1.1.2]) (by simp [heff.1.2]) ?_ (by simp [heff.2, heff.1.1.1.2]) ?_
     · intro fd hfd
       right
-      intro j lj hj hr
-      have hmem := rx_mem_used hj hr
+      intro j lj hj hrj
+      have hmem := rx_mem_used hj hrj
       simp only [Option.some.injEq] at hfd
       rw [← hfd] at hmem
-      exact lowestFree_fresh _ hmem
-    · intro hr; rw [heff.1.1.1.2] at hr; cases hr
+      exact hr hmem
+    · intro hrd; rw [heff.1.1.1.2] at hrd; cases hrd
   | addReader =>
+    have hreach' := hreach' (by decide)
     simp only [effOk, Bool.and_eq_true, beq_iff_eq] at heff
     obtain ⟨⟨⟨hso, hto⟩, htr⟩, htp⟩ := heff
     have : l.rx.isSome = true := by rw [hrx, hso]
     obtain ⟨fd, hfd⟩ := Option.isSome_iff_exists.1 this
-    simp only [applyEff, hfd]
+    simp only [applyEffC, hfd]
     have hlive : ∀ e ∈ g.tbl, e.fd = fd → e.live = true := fun e he _ => (hwf.entOk e he).1
     refine wf_update hwf hi hreach' (by simp [hto]) (by simp [htx, htp]) (fun fd' h => Or.inl (by rw [hfd]; exact h)) ?_ ?_ ?_
     · intro e he
@@ -425,11 +559,12 @@ theorem wf_parent {g g' : G} (hwf : WF g) {i : Nat} (h : gParent prog i g = some
       rw [mem_tblPut hlive]
       exact Or.inr ⟨he, fun hefd => ho (hown e he fd hfd hefd)⟩
   | removeReader =>
+    have hreach' := hreach' (by decide)
     simp only [effOk, Bool.and_eq_true, beq_iff_eq, Bool.not_eq_true'] at heff
     obtain ⟨⟨⟨hso, hto⟩, htr⟩, htp⟩ := heff
     have : l.rx.isSome = true := by rw [hrx, hso]
     obtain ⟨fd, hfd⟩ := Option.isSome_iff_exists.1 this
-    simp only [applyEff, hfd]
+    simp only [applyEffC, hfd]
     refine wf_update hwf hi hreach' (by simp [hto]) (by simp [htx, htp]) (fun fd' h => Or.inl (by rw [hfd]; exact h)) ?_ ?_ ?_
     · intro e he
       rw [mem_tblErase] at he
@@ -443,11 +578,12 @@ theorem wf_parent {g g' : G} (hwf : WF g) {i : Nat} (h : gParent prog i g = some
       rw [mem_tblErase]
       exact ⟨he, fun hefd => ho (hown e he fd hfd hefd)⟩
   | freeRx =>
+    have hreach' := hreach' (by decide)
     simp only [effOk, Bool.and_eq_true, beq_iff_eq, Bool.not_eq_true'] at heff
     obtain ⟨⟨⟨⟨hso, hto⟩, hsr⟩, htr⟩, htp⟩ := heff
     have : l.rx.isSome = true := by rw [hrx, hso]
     obtain ⟨fd, hfd⟩ := Option.isSome_iff_exists.1 this
-    simp only [applyEff, hfd]
+    simp only [applyEffC, hfd]
     have hno : ∀ e ∈ g.tbl, e.fd ≠ fd := by
       intro e he hefd
       have ho := hown e he fd hfd hefd
@@ -481,11 +617,20 @@ theorem wf_callback {g g' : G} (hwf : WF g) {k : Nat} (h : gCallback k g = some 
   exact wf_same_tbl hwf ho (local_closed hlr (loop_in_next hl)) (by simp [hwf.rxIff e.owner o ho])
     (by simp [hwf.txIff e.owner o ho]) (fun fd h => Or.inl h) rfl (fun _ => rfl)
 
+theorem wf_cancel {g g' : G} (hwf : WF g) {i : Nat} (h : gCancel prog i g = some g') : WF g' := by
+  obtain ⟨l, t, hi, hc, rfl⟩ := gCancel_some h
+  have hlr := hwf.reach i l hi
+  have hf := local_cancel_frame hlr hc
+  simp only [frameOk, Bool.and_eq_true, beq_iff_eq] at hf
+  exact wf_same_tbl hwf hi (local_closed hlr (cancel_in_next hc)) (by simp [hwf.rxIff i l hi, hf.1.2])
+    (by simp [hwf.txIff i l hi, hf.2]) (fun fd h => Or.inl h) hf.1.1 (fun _ => rfl)
+
 theorem wf_step {g g' : G} (hwf : WF g) (h : GStep prog g g') : WF g' := by
   cases h with
-  | parent i h => exact wf_parent hwf h
+  | parent i r w hr _ h => exact wf_parent hwf hr h
   | child i h => exact wf_child hwf h
   | callback k h => exact wf_callback hwf h
+  | cancel i h => exact wf_cancel hwf h
 
 theorem wf_init (cs : List (Callee × Bool)) : WF (G.init cs) := by
   have hfresh : ∀ (i : Nat) (l : Loc), (G.init cs).invs[i]? = some l → ∃ c big, l = Loc.fresh c big := by
@@ -531,16 +676,25 @@ theorem gstep_local {g g' : G} (hwf : WF g) (h : GStep prog g g') :
     ∃ (i : Nat) (l l' : Loc), g.invs[i]? = some l ∧ g'.invs = g.invs.set i l' ∧ l'.callee = l.callee ∧ l'.big = l.big ∧
       l'.st ∈ next prog (childBeh l.callee) l.big l.st := by
   cases h with
-  | parent i h =>
+  | parent i r w _ _ h =>
     obtain ⟨l, t, eff, hi, hp, rfl⟩ := gParent_some h
-    have hn : t ∈ next prog (childBeh l.callee) l.big l.st := parent_in_next hp
-    cases eff <;> exact ⟨i, l, _, hi, rfl, rfl, rfl, hn⟩
+    cases eff with
+    | allocPipe => exact ⟨i, l, _, hi, rfl, rfl, rfl, parent_alloc_in_next hp _⟩
+    | none => exact ⟨i, l, _, hi, rfl, rfl, rfl, parent_in_next hp (by decide)⟩
+    | freeTx => exact ⟨i, l, _, hi, rfl, rfl, rfl, parent_in_next hp (by decide)⟩
+    | addReader => exact ⟨i, l, _, hi, rfl, rfl, rfl, parent_in_next hp (by decide)⟩
+    | removeReader => exact ⟨i, l, _, hi, rfl, rfl, rfl, parent_in_next hp (by decide)⟩
+    | freeRx => exact ⟨i, l, _, hi, rfl, rfl, rfl, parent_in_next hp (by decide)⟩
+    | start => exact ⟨i, l, _, hi, rfl, rfl, rfl, parent_in_next hp (by decide)⟩
   | child i h =>
     obtain ⟨l, t, hi, hc, rfl⟩ := gChild_some h
     exact ⟨i, l, _, hi, rfl, rfl, rfl, child_in_next hc⟩
   | callback k h =>
     obtain ⟨e, o, _, ho, _, hl, rfl⟩ := callback_local hwf h
     exact ⟨e.owner, o, _, ho, rfl, rfl, rfl, loop_in_next hl⟩
+  | cancel i h =>
+    obtain ⟨l, t, hi, hc, rfl⟩ := gCancel_some h
+    exact ⟨i, l, _, hi, rfl, rfl, rfl, cancel_in_next hc⟩
 
 theorem gstep_rank {g g' : G} (hwf : WF g) (h : GStep prog g g') : rankSum g'.invs < rankSum g.invs := by
   obtain ⟨i, l, l', hi, hset, _, _, hn⟩ := gstep_local hwf h
@@ -556,17 +710,18 @@ def StepOf (i : Nat) (g g' : G) : Prop :=
 
 theorem stepOf_gstep {i : Nat} {g g' : G} (h : StepOf i g g') : GStep prog g g' := by
   rcases h with h | h | ⟨k, _, _, _, h⟩
-  · exact .parent i h
+  · exact .parent i _ _ (allocFd_fresh 0 _) (allocFd_fresh 0 _) h
   · exact .child i h
   · exact .callback k h
 
 theorem progress_of {g : G} (hwf : WF g) {i : Nat} {l : Loc} (hi : g.invs[i]? = some l) (hnf : l.st.final = false) :
     ∃ g', StepOf i g g' := by
   obtain ⟨t, ht⟩ := local_progress (hwf.reach i l hi) hnf
-  simp only [next, List.mem_append, Option.mem_toList, Option.map_eq_some_iff] at ht
-  rcases ht with (⟨⟨t', eff⟩, hp, _⟩ | hc) | hl
-  · exact ⟨applyEff i l t' eff g, Or.inl (by simp [gParent, hi, hp])⟩
-  · exact ⟨{ g with invs := g.invs.set i { l with st := t } }, Or.inr (Or.inl (by simp only [gChild, hi, hc]))⟩
+  simp only [sysNext, List.mem_append, Option.mem_toList] at ht
+  rcases ht with (hpn | hc) | hl
+  · obtain ⟨⟨t', eff⟩, hp⟩ := parentNext_some hpn
+    exact ⟨_, Or.inl (by simp only [gParent, gParentB, gParentAt, gParentAtI, hi, hp]; rfl)⟩
+  · exact ⟨_, Or.inr (Or.inl (by simp only [gChild, gChildI, hi, hc]; rfl))⟩
   · have hcond : l.st.reader = true ∧ l.st.rxOpen = true ∧ l.st.readable = true ∧ l.st.event = false := by
       unfold loopStep at hl
       split at hl
@@ -621,7 +776,7 @@ theorem grun_trans {P : List Instr} {a b c : G} (h1 : GRun P a b) (h2 : GRun P b
   | refl => exact h1
   | step _ hs ih => exact .step ih hs
 
-theorem runParent_run (P : List Instr) (i : Nat) : ∀ (n : Nat) (g : G), GRun P g (runParent P i n g) := by
+theorem runParent_run (P : List Instr) (base i : Nat) : ∀ (n : Nat) (g : G), GRun P g (runParent P base i n g) := by
   intro n
   induction n with
   | zero => intro g; exact .refl g
@@ -629,7 +784,7 @@ theorem runParent_run (P : List Instr) (i : Nat) : ∀ (n : Nat) (g : G), GRun P
     intro g
     simp only [runParent]
     split
-    · next g' h => exact grun_trans (.step (.refl g) (.parent i h)) (ih g')
+    · next g' h => exact grun_trans (.step (.refl g) (.parent i _ _ (allocFd_fresh base _) (allocFd_fresh base _) h)) (ih g')
     · exact .refl g
 
 theorem runChild_run (P : List Instr) (i : Nat) : ∀ (n : Nat) (g : G), GRun P g (runChild i n g) := by
@@ -653,7 +808,7 @@ theorem parentPhase_run (P : List Instr) (sc : List Sched) : ∀ (is : List Nat)
     split
     · exact .refl g
     · split
-      · exact grun_trans (runParent_run P i 64 g) (ih _)
+      · exact grun_trans (runParent_run P _ i 64 g) (ih _)
       · exact ih g
 
 theorem callbackPhase_run (P : List Instr) : ∀ (k : Nat) (g : G), GRun P g (callbackPhase k g) := by
@@ -673,6 +828,11 @@ theorem loopPhase_run (P : List Instr) (sc : List Sched) (g : G) : GRun P g (loo
   · exact parentPhase_run P sc _ g
   · exact grun_trans (parentPhase_run P sc _ g) (callbackPhase_run P _ _)
 
+theorem gCancel_getD_run (P : List Instr) (i : Nat) (g : G) : GRun P g ((gCancel P i g).getD g) := by
+  cases h : gCancel P i g with
+  | none => exact .refl g
+  | some g' => exact .step (.refl g) (.cancel i h)
+
 theorem schedule_run (P : List Instr) (sc : List Sched) : ∀ (n : Nat) (rem : List Nat) (g : G), GRun P g (schedule P sc n rem g) := by
   intro n
   induction n with
@@ -683,12 +843,14 @@ theorem schedule_run (P : List Instr) (sc : List Sched) : ∀ (n : Nat) (rem : L
     split
     · exact grun_trans (loopPhase_run P sc g) (ih rem _)
     · split
-      · exact grun_trans (runChild_run P _ 8 g) (ih rem _)
+      · exact grun_trans (gCancel_getD_run P _ g) (ih rem _)
       · split
+        · exact grun_trans (runChild_run P _ 8 g) (ih rem _)
         · split
+          · split
+            · exact .refl g
+            · exact ih _ g
           · exact .refl g
-          · exact ih _ g
-        · exact .refl g
 
 theorem scheduleH_run (hold : List Nat) (P : List Instr) (sc : List Sched) :
     ∀ (n : Nat) (rem : List Nat) (g : G), GRun P g (scheduleH hold P sc n rem g) := by
@@ -701,35 +863,62 @@ theorem scheduleH_run (hold : List Nat) (P : List Instr) (sc : List Sched) :
     split
     · exact grun_trans (loopPhase_run P sc g) (ih rem _)
     · split
-      · exact grun_trans (runChild_run P _ _ g) (ih rem _)
+      · exact grun_trans (gCancel_getD_run P _ g) (ih rem _)
       · split
+        · exact grun_trans (runChild_run P _ _ g) (ih rem _)
         · split
+          · split
+            · exact .refl g
+            · exact ih _ g
           · exact .refl g
-          · exact ih _ g
-        · exact .refl g
 
-/-- `gsucc` lists every successor -/
-theorem gstep_mem_gsucc {P : List Instr} {g g' : G} (h : GStep P g g') : g' ∈ gsucc P g := by
-  simp only [gsucc, List.mem_append, List.mem_filterMap, List.mem_range]
+/-- whether a parent step is enabled does not depend on the descriptor numbers a new pipe would get -/
+theorem gParentAt_enabled {P : List Instr} {i r w : Nat} {g g' : G} (h : gParentAt P i r w g = some g') (r' w' : Nat) :
+    ∃ g'', gParentAt P i r' w' g = some g'' := by
+  unfold gParentAt gParentAtI at h ⊢
+  split at h
+  · simp at h
+  · next l hl =>
+    split at h
+    · simp at h
+    · next t eff hp => exact ⟨_, rfl⟩
+
+/-- `gsucc` has a successor whenever the system has a step of its own: child and callback steps are listed as they are, a parent step
+    with the kernel's choice of descriptor numbers.  The only steps it does not list are cancellations by the environment. -/
+theorem gstep_gsucc_ne_nil {P : List Instr} {g g' : G} (h : GStep P g g') : gsucc P g ≠ [] ∨ ∃ i, gCancel P i g = some g' := by
   cases h with
-  | parent i h =>
-    refine Or.inl (Or.inl ⟨i, ?_, h⟩)
-    unfold gParent at h
-    split at h
-    · simp at h
-    · next l hl => exact (List.getElem?_eq_some_iff.1 hl).1
+  | cancel i h => exact Or.inr ⟨i, h⟩
+  | parent i r w _ _ h =>
+    left
+    obtain ⟨g'', h'⟩ := gParentAt_enabled h (allocFd 0 (usedFds g.invs)) (allocFd 0 (allocFd 0 (usedFds g.invs) :: usedFds g.invs))
+    have hi : i < g.invs.length := by
+      unfold gParentAt gParentAtI at h
+      split at h
+      · simp at h
+      · next l hl => exact (List.getElem?_eq_some_iff.1 hl).1
+    apply List.ne_nil_of_mem (a := g'')
+    simp only [gsucc, List.mem_append, List.mem_filterMap, List.mem_range]
+    exact Or.inl (Or.inl ⟨i, hi, h'⟩)
   | child i h =>
-    refine Or.inl (Or.inr ⟨i, ?_, h⟩)
-    unfold gChild at h
-    split at h
-    · simp at h
-    · next l hl => exact (List.getElem?_eq_some_iff.1 hl).1
+    left
+    have hi : i < g.invs.length := by
+      unfold gChild gChildI at h
+      split at h
+      · simp at h
+      · next l hl => exact (List.getElem?_eq_some_iff.1 hl).1
+    apply List.ne_nil_of_mem (a := g')
+    simp only [gsucc, List.mem_append, List.mem_filterMap, List.mem_range]
+    exact Or.inl (Or.inr ⟨i, hi, h⟩)
   | callback k h =>
-    refine Or.inr ⟨k, ?_, h⟩
-    unfold gCallback at h
-    split at h
-    · simp at h
-    · next e he => exact (List.getElem?_eq_some_iff.1 he).1
+    left
+    have hk : k < g.tbl.length := by
+      unfold gCallback at h
+      split at h
+      · simp at h
+      · next e he => exact (List.getElem?_eq_some_iff.1 he).1
+    apply List.ne_nil_of_mem (a := g')
+    simp only [gsucc, List.mem_append, List.mem_filterMap, List.mem_range]
+    exact Or.inr ⟨k, hk, h⟩
 
 /-! # The property theorems -/
 
@@ -772,6 +961,16 @@ theorem outOk_allowed (c : Callee) (o : Outcome) (h : outOk (childBeh c) (some o
     rcases h with h | h <;> subst h <;> simp [observe, Spec.allowed]
   | spawns v => rw [h8] at h; simp [outOk] at h; subst h; simp [observe, Spec.allowed]
 
+theorem outOkC_allowed (c : Callee) (s : St) (o : Outcome) (ho : s.out = some o) (h : outOkC (childBeh c) s = true) :
+    if s.cancelled = true then o = .cancelled else observe c o ∈ Spec.allowed c := by
+  unfold outOkC at h
+  split
+  · next hc => simpa [hc, ho] using h
+  · next hc =>
+    have hc' : s.cancelled = false := by simpa using hc
+    rw [hc', ho] at h
+    exact outOk_allowed _ _ (by simpa using h)
+
 /-- **faithful result, each invocation its own**: in every reachable state of any number of concurrent invocations, an
     invocation that has finished hands its caller an observation the specification allows for *its own* callee:
     the value the function returned, the exception it raised, ChildProcessError when the child ended without reporting
@@ -779,7 +978,8 @@ theorem outOk_allowed (c : Callee) (o : Outcome) (h : outOk (childBeh c) (some o
     killed in the middle of the transfer. -/
 theorem faithful_result (cs : List (Callee × Bool)) (g : G) (hrun : GRun prog (G.init cs) g)
     (i : Nat) (l : Loc) (hi : g.invs[i]? = some l) (o : Outcome) (ho : l.st.out = some o) :
-    (∃ c, cs[i]? = some c ∧ l.callee = c.1) ∧ observe l.callee o ∈ Spec.allowed l.callee := by
+    (∃ c, cs[i]? = some c ∧ l.callee = c.1) ∧
+    (if l.st.cancelled = true then o = .cancelled else observe l.callee o ∈ Spec.allowed l.callee) := by
   have hwf := wf_run hrun
   constructor
   · have h := run_callees hrun
@@ -787,9 +987,7 @@ theorem faithful_result (cs : List (Callee × Bool)) (g : G) (hrun : GRun prog (
     rw [h] at this
     exact ⟨_, this, rfl⟩
   · have hf : l.st.final = true := by simp [St.final, ho]
-    have := (local_final (hwf.reach i l hi) hf).2
-    rw [ho] at this
-    exact outOk_allowed _ _ this
+    exact outOkC_allowed _ _ _ ho (local_final (hwf.reach i l hi) hf).2
 
 /-- **own result (no cross-talk through the event loop)**: whenever the event loop runs a reader callback, the selector
     entry it belongs to sits at the fd number that the entry's owner currently holds as its read end, the pipe whose
@@ -817,7 +1015,7 @@ theorem other_tasks_run (cs : List (Callee × Bool)) (g : G) (hrun : GRun prog (
     (isJoin prog l.st = true ∧ l.st.cpc = .sent ∧ ∃ g', gChild i g = some g') := by
   have hlr := (wf_run hrun).reach i l hi
   cases hp : parentStep prog l.st with
-  | some r => exact Or.inl ⟨applyEff i l r.1 r.2 g, by simp [gParent, hi, hp]⟩
+  | some r => exact Or.inl ⟨_, by simp only [gParent, gParentB, gParentAt, gParentAtI, hi, hp]; rfl⟩
   | none =>
     by_cases hpk : l.st.parked = true
     · exact Or.inr (Or.inl ⟨hpk, local_parked hlr hpk⟩)
@@ -825,8 +1023,8 @@ theorem other_tasks_run (cs : List (Callee × Bool)) (g : G) (hrun : GRun prog (
         have : l.st.out.isSome = false := by simpa [St.final] using hnf
         simp [syncBlocked, hp, hpk, this]
       obtain ⟨hj, hc⟩ := local_sync hlr hb
-      refine Or.inr (Or.inr ⟨hj, hc, { g with invs := g.invs.set i { l with st := { l.st with cpc := .exited, childTx := false } } }, ?_⟩)
-      simp [gChild, hi, childStep, hc]
+      obtain ⟨⟨t, hct, _⟩, _⟩ := local_unblock hlr hb
+      exact Or.inr (Or.inr ⟨hj, hc, _, by simp only [gChild, gChildI, hi, hct]; rfl⟩)
 
 /-- the clause "while it is pending the event loop keeps running other tasks" at full strength: in no reachable state does a
     coroutine sit in a synchronously blocking call (a single-threaded event loop runs nothing else meanwhile) -/
@@ -856,7 +1054,7 @@ theorem other_tasks_run_partial (cs : List (Callee × Bool)) (g : G) (hrun : GRu
 /-- the witness: two concurrent invocations of ordinary returning callees; the child of invocation 0 has sent its result and
     lingers (its exit step is withheld), everything else has moved as far as it can -/
 def lingerCs : List (Callee × Bool) := [(.ret 0, false), (.ret 1, false)]
-def lingerSc : List Sched := [⟨1, none, []⟩, ⟨3, none, []⟩]
+def lingerSc : List Sched := [⟨1, none, [], 0, none⟩, ⟨3, none, [], 0, none⟩]
 def blockG : G := scheduleH [0] prog lingerSc 200 [1, 3] (G.init lingerCs)
 
 /-- **negation witness for the full clause — `process.join()` blocks the event loop while the child lingers.**  A reachable
@@ -1006,6 +1204,11 @@ theorem grun_mrun {cs : List (Callee × Bool)} {g : G} (h : GRun prog (G.init cs
     simpa [G.newLoop, G.init] using this
   | step _ hs ih => exact .step ih hs
 
+theorem mrun_trans_grun {cs : List (Callee × Bool)} {g g' : G} (h : MRun cs g) (h2 : GRun prog g g') : MRun cs g' := by
+  induction h2 with
+  | refl => exact h
+  | step _ hs ih => exact .step ih hs
+
 /-- the invocations keep the callee they were started with, over all loops -/
 theorem mrun_callees {cs : List (Callee × Bool)} {g : G} (h : MRun cs g) :
     g.invs.map (fun l => (l.callee, l.big)) = cs := by
@@ -1031,7 +1234,8 @@ theorem mrun_callees {cs : List (Callee × Bool)} {g : G} (h : MRun cs g) :
     has finished handed its caller an observation the specification allows for *its own* callee. -/
 theorem faithful_result_rounds (cs : List (Callee × Bool)) (g : G) (hrun : MRun cs g)
     (i : Nat) (l : Loc) (hi : g.invs[i]? = some l) (o : Outcome) (ho : l.st.out = some o) :
-    (∃ c, cs[i]? = some c ∧ l.callee = c.1) ∧ observe l.callee o ∈ Spec.allowed l.callee := by
+    (∃ c, cs[i]? = some c ∧ l.callee = c.1) ∧
+    (if l.st.cancelled = true then o = .cancelled else observe l.callee o ∈ Spec.allowed l.callee) := by
   have hwf := wf_mrun hrun
   constructor
   · have h := mrun_callees hrun
@@ -1039,9 +1243,7 @@ theorem faithful_result_rounds (cs : List (Callee × Bool)) (g : G) (hrun : MRun
     rw [h] at this
     exact ⟨_, this, rfl⟩
   · have hf : l.st.final = true := by simp [St.final, ho]
-    have := (local_final (hwf.reach i l hi) hf).2
-    rw [ho] at this
-    exact outOk_allowed _ _ this
+    exact outOkC_allowed _ _ _ ho (local_final (hwf.reach i l hi) hf).2
 
 /-- **always terminates, releases everything — in every event loop**: the three clauses of `terminates_and_releases` for runs
     over any number of event loops (within a loop every step decreases the rank sum; a pending invocation always has an enabled
@@ -1135,11 +1337,286 @@ theorem progress_independent_of_siblings (cs : List (Callee × Bool)) (g g' : G)
     exact local_rank (hwf.reach k l hi) hn
   · exact ⟨l, by rw [hset, get_set lk' hk i]; simp [hki, hi], Or.inl rfl⟩
 
+/-! ## cancellation: the awaiting task is cancelled / times out while the invocation is pending -/
+
+/-- **the environment can cancel whenever the coroutine is suspended**: in every reachable state, for every invocation whose coroutine
+    sits in `await event.wait()`, the cancellation step is enabled (it is a step of the machine: every theorem about all runs covers
+    runs with any number of cancellations at any such moment), and it marks the invocation as cancelled. -/
+theorem cancel_enabled_when_suspended (cs : List (Callee × Bool)) (g : G) (hrun : MRun cs g)
+    (i : Nat) (l : Loc) (hi : g.invs[i]? = some l) (hp : l.st.parked = true) (hnf : l.st.final = false) :
+    ∃ g', gCancel prog i g = some g' ∧ GStep prog g g' ∧ MRun cs g' ∧ ∃ l', g'.invs[i]? = some l' ∧ l'.st.cancelled = true := by
+  have hw := local_parked ((wf_mrun hrun).reach i l hi) hp
+  have hout : l.st.out.isSome = false := by simpa [St.final] using hnf
+  cases hpc : prog[l.st.pc]? with
+  | none => simp [isWait, hpc] at hw
+  | some ins =>
+    have hc : cancelStep prog l.st = some (raiseAt ins .cancel { l.st with cancelled := true }) := by
+      simp [cancelStep, hout, hp, hpc]
+    have hg : gCancel prog i g = some { g with invs := g.invs.set i { l with st := raiseAt ins .cancel { l.st with cancelled := true } } } := by
+      simp only [gCancel, hi, hc]
+    have hget : ({ g with invs := g.invs.set i { l with st := raiseAt ins .cancel { l.st with cancelled := true } } } : G).invs[i]? =
+        some { l with st := raiseAt ins .cancel { l.st with cancelled := true } } := by
+      simp only; rw [get_set _ hi i]; simp
+    refine ⟨_, hg, .cancel i hg, .step hrun (.cancel i hg), _, hget, ?_⟩
+    simp only [raiseAt]
+    split <;> rfl
+
+/-- **a cancelled invocation ends and leaves nothing behind**: in every event loop, every interleaving, wherever the cancellation hit —
+    as long as it has not finished it has a step of its own (its parent's clean-up, never a wait for anything); when it has, the caller
+    got the cancellation, the read end is closed and its fd number given back, the child has exited AND been reaped, no reader entry of
+    the invocation is left in the selector map. -/
+theorem cancellation_releases (cs : List (Callee × Bool)) (g : G) (hrun : MRun cs g)
+    (i : Nat) (l : Loc) (hi : g.invs[i]? = some l) (hc : l.st.cancelled = true) :
+    (l.st.final = false → ∃ g', StepOf i g g') ∧
+    (l.st.final = true → l.st.out = some .cancelled ∧ l.st.released = true ∧ l.st.reaped = true ∧ l.st.cpc = .exited ∧
+      l.rx = none ∧ l.tx = none ∧ ∀ e ∈ g.tbl, e.owner ≠ i) := by
+  have hwf := wf_mrun hrun
+  refine ⟨fun hnf => progress_of hwf hi hnf, fun hf => ?_⟩
+  obtain ⟨hrel, hout⟩ := local_final (hwf.reach i l hi) hf
+  have hr := hrel
+  simp only [St.released, Bool.and_eq_true, Bool.not_eq_true', beq_iff_eq] at hr
+  obtain ⟨⟨⟨⟨⟨hrx, hptx⟩, _⟩, hrd⟩, hreap⟩, hcpc⟩ := hr
+  have h1 := hwf.rxIff i l hi
+  have h2 := hwf.txIff i l hi
+  refine ⟨by simpa [outOkC, hc] using hout, hrel, hreap, hcpc, by rw [hrx] at h1; simpa using h1, by rw [hptx] at h2; simpa using h2, ?_⟩
+  intro e he ho
+  obtain ⟨_, lo, hlo, _, hrd'⟩ := hwf.entOk e he
+  rw [ho, hi] at hlo
+  cases hlo
+  rw [hrd] at hrd'
+  cases hrd'
+
+/-- `calculate_in_subprocess` before the repair of the cancellation path (the translator's output for that source): the wait is protected
+    by `try … finally: remove_reader; event.clear()` only — a CancelledError raised at `await event.wait()` runs that `finally` and leaves the
+    coroutine before `process.join()` and `rx.close()` -/
+def preCancelProg : List Instr := [
+  ⟨.pipe, none, none, none⟩, ⟨.start, none, none, none⟩, ⟨.closeTx, none, none, none⟩, ⟨.addReader, none, none, none⟩,
+  ⟨.pollWait, some 8, some 8, some 8⟩, ⟨.removeReader, none, none, none⟩, ⟨.clearEvent, none, none, none⟩, ⟨.jump 11, none, none, none⟩,
+  ⟨.removeReader, none, none, none⟩, ⟨.clearEvent, none, none, none⟩, ⟨.reraise, none, none, none⟩,
+  ⟨.recv, some 13, some 18, some 18⟩, ⟨.jump 15, none, none, none⟩, ⟨.caught, none, none, none⟩,
+  ⟨.setChildProcessError, some 18, some 18, some 18⟩, ⟨.join, none, none, none⟩, ⟨.closeRx, none, none, none⟩, ⟨.jump 21, none, none, none⟩,
+  ⟨.join, none, none, none⟩, ⟨.closeRx, none, none, none⟩, ⟨.reraise, none, none, none⟩, ⟨.raiseIfError, none, none, none⟩, ⟨.ret, none, none, none⟩]
+
+def preCancelRank : List Nat := [16, 15, 14, 13, 12, 11, 10, 9, 11, 10, 9, 8, 6, 7, 6, 5, 4, 3, 5, 4, 3, 2, 1]
+
+/-- **negation witness: before the repair a cancelled invocation left its child and its pipe end behind.**  Without cancellations that
+    protocol passes every check for every child behaviour; with the environment's `cancel` step it has a reachable FINAL state — the
+    caller already holds the CancelledError — in which the read end is still open and the child is still running, un-reaped (and, the other
+    way round, final states that were not cancelled are fine). -/
+theorem cancel_leaks_before_repair :
+    cfgs.all (fun c => sysCheck preCancelProg preCancelRank c.1 c.2) = true ∧
+    (reach preCancelProg .sendOk false).any (fun s => s.final && s.cancelled && s.out == some .cancelled && s.rxOpen && !s.reader &&
+      !s.reaped && s.cpc == .running && !s.released) = true ∧
+    (reach preCancelProg .sendOk false).all (fun s => !s.final || s.cancelled || s.released) = true := by
+  decide +kernel
+
+/-- non-vacuity, and the scenario the correspondence check runs: invocation 1 is cancelled while its callee is still working (the callee ends
+    only after invocation 1 itself has finished: `gate := [1]`), next to an ordinary invocation; invocation 2 is cancelled once invocation 0
+    has finished.  Scheduled to the end: the cancelled ones got the cancellation, everything is released. -/
+def cancelCs : List (Callee × Bool) := [(.ret 0, false), (.ret 1, false), (.raiseExc 2, true)]
+def cancelSc : List Sched := [⟨1, none, [], 0, none⟩, ⟨0, none, [1], 0, some []⟩, ⟨0, none, [2], 0, some [0]⟩]
+def cancelG : G := schedule prog cancelSc 400 [1, 0, 0] (G.init cancelCs)
+example : GRun prog (G.init cancelCs) cancelG := schedule_run _ _ _ _ _
+example : cancelG.invs.map (fun l => (l.st.out, l.st.cancelled, l.st.released, l.st.cpc)) =
+    [(some .retOk, false, true, .exited), (some .cancelled, true, true, .exited), (some .cancelled, true, true, .exited)] ∧ cancelG.tbl = [] := by
+  decide +kernel
+/-- the same scenario on the protocol before the repair: the cancelled invocations end, but not released -/
+example : ((schedule preCancelProg cancelSc 400 [1, 0, 0] (G.init cancelCs)).invs.map (fun l => (l.st.out, l.st.released, l.st.reaped))) =
+    [(some .retOk, true, true), (some .cancelled, false, false), (some .cancelled, false, false)] := by decide +kernel
+
+/-! ## how long the event loop can be blocked -/
+
+/-- **a synchronous wait lasts exactly until the invocation's own child has exited** (run-level form of the non-blocking clause): if, in
+    any reachable state of any run over any number of event loops, the coroutine of invocation `i` sits in a synchronously blocking call,
+    then (1) the exit of `i`'s own child is enabled — it depends on no other component —, after it the coroutine is no longer blocked and
+    its next step is enabled; and (2) no other step of the system — of any parent, any other child, the event loop, a cancellation — ends
+    the wait: after any step the coroutine is still blocked or its child has exited.  So the loop is blocked behind `i` from the moment the
+    parent reaches `join` (its child has sent: `other_tasks_run`) to the child's exit, and by nothing else; on runs in which a child's exit
+    precedes its parent's arrival at `join` no state is blocked at all. -/
+theorem join_blocks_only_until_own_child_exits (cs : List (Callee × Bool)) (g : G) (hrun : MRun cs g)
+    (i : Nat) (l : Loc) (hi : g.invs[i]? = some l) (hb : syncBlocked prog l.st = true) :
+    (∃ g' l', gChild i g = some g' ∧ g'.invs[i]? = some l' ∧ l'.st.cpc = .exited ∧ syncBlocked prog l'.st = false ∧
+      ∃ g'', gParent prog i g' = some g'') ∧
+    (∀ g', GStep prog g g' → ∃ l', g'.invs[i]? = some l' ∧ (syncBlocked prog l'.st = true ∨ l'.st.cpc = .exited)) := by
+  have hwf := wf_mrun hrun
+  have hlr := hwf.reach i l hi
+  obtain ⟨⟨t, hct, hex, hps, hnb⟩, hall⟩ := local_unblock hlr hb
+  constructor
+  · refine ⟨{ g with invs := g.invs.set i { l with st := t } }, { l with st := t }, ?_, ?_, hex, hnb, ?_⟩
+    · simp only [gChild, gChildI, hi, hct, inheritOthers_false, postExit_false]
+    · simp only; rw [get_set _ hi i]; simp
+    · obtain ⟨⟨t', eff⟩, hp⟩ := Option.isSome_iff_exists.1 hps
+      have : ({ g with invs := g.invs.set i { l with st := t } } : G).invs[i]? = some { l with st := t } := by
+        simp only; rw [get_set _ hi i]; simp
+      exact ⟨_, by simp only [gParent, gParentB, gParentAt, gParentAtI, this, hp]; rfl⟩
+  · intro g' hs
+    obtain ⟨k, lk, lk', hk, hset, _, _, hn⟩ := gstep_local hwf hs
+    by_cases hki : k = i
+    · subst hki
+      rw [hi] at hk; cases hk
+      refine ⟨lk', by rw [hset, get_set lk' hi k]; simp, ?_⟩
+      rcases hall _ hn with h | h
+      · exact Or.inr h
+      · exact Or.inl h
+    · exact ⟨l, by rw [hset, get_set lk' hk i]; simp [hki, hi], Or.inl hb⟩
+
+/-! ## fork inheritance: what `awaitsWhileWriteEndOpen = []` excludes -/
+
+/-- **why there must be no `await` between `Pipe()` and `tx.close()`** (witness with inheritance switched on: `playI true`): invocation 0
+    makes its pipe; before it closes its write end, invocation 1 forks its child — which inherits a copy of that write end; invocation 0
+    goes on (start, `tx.close()`, `add_reader`, wait), its own child dies without a result.  Now invocation 0 is pending, its child is
+    gone, nothing is in the pipe, and it has NO step of its own: no EOF while the child of invocation 1 lives.  Only when that child has
+    ended does invocation 0 get its EOF.  With the generated fact (`inheritOthers_false`) the same moves leave invocation 0 runnable. -/
+def inhCs : List (Callee × Bool) := [(.hardDeath .osExit, false), (.ret 1, false)]
+def inhMoves : List Mv := [.p 0, .p 1, .p 1, .p 0, .p 0, .p 0, .p 0, .c 0]
+
+theorem inherited_write_end_blocks_eof :
+    (match playI true prog inhMoves (G.init inhCs) with
+     | some g => (match g.invs[0]?, g.invs[1]? with
+        | some l0, some l1 => !l0.st.final && l0.st.parked && l0.st.cpc == .exited && l0.st.buf == .empty && l0.st.foreignTx &&
+            l0.heirs == [1] && (sysNext prog (childBeh l0.callee) l0.big l0.st).isEmpty && l1.st.cpc == .running
+        | _, _ => false)
+     | none => false) = true ∧
+    (match playI true prog (inhMoves ++ [.c 1, .c 1]) (G.init inhCs) with
+     | some g => (match g.invs[0]? with
+        | some l0 => !l0.st.foreignTx && l0.st.readable && l0.heirs == []
+        | none => false)
+     | none => false) = true ∧
+    (match playI false prog inhMoves (G.init inhCs) with
+     | some g => (match g.invs[0]? with
+        | some l0 => !l0.st.foreignTx && l0.st.readable && !(loopStep l0.st).isNone
+        | none => false)
+     | none => false) = true := by
+  decide +kernel
+
+/-! ## descriptor numbers: whatever else the process holds open -/
+
+/-- **a pipe may get any descriptor numbers**: in every reachable state, an invocation that has not begun can make its pipe with ANY
+    two numbers not in use by the invocations — as low as the kernel's rule gives in an otherwise idle process, or beyond FD_SETSIZE in a
+    process that holds a thousand other descriptors (or has some hundred invocations pending) — and the state reached is again a
+    reachable state: every theorem of this file (`faithful_result`, `terminates_and_releases`, … — stated for all runs) covers it.  The
+    invocation remembers on which side of FD_SETSIZE its read end lies (`rxHigh`); no instruction of the generated program reads it
+    (`readiness_by_connection_poll`). -/
+theorem pipe_gets_any_free_descriptors (cs : List (Callee × Bool)) (g : G) (hrun : GRun prog (G.init cs) g)
+    (i : Nat) (l : Loc) (hi : g.invs[i]? = some l) (h0 : l.st = St.init)
+    (r w : Nat) (hr : r ∉ usedFds g.invs) (hw : w ∉ r :: usedFds g.invs) :
+    ∃ g', GStep prog g g' ∧ GRun prog (G.init cs) g' ∧
+      ∃ l', g'.invs[i]? = some l' ∧ l'.rx = some r ∧ l'.tx = some w ∧ l'.st.rxHigh = decide (fdSetSize ≤ r) := by
+  have hp : ∃ t, parentStep prog St.init = some (t, .allocPipe) := by
+    have : ((parentStep prog St.init).map (·.2)) = some Eff.allocPipe := by decide
+    cases hps : parentStep prog St.init with
+    | none => simp [hps] at this
+    | some x => obtain ⟨t, eff⟩ := x; simp [hps] at this; subst this; exact ⟨t, rfl⟩
+  obtain ⟨t, hp⟩ := hp
+  have hstep : gParentAt prog i r w g = some (applyEffC r w i l t .allocPipe g) := by
+    rw [← applyEff_eq]
+    simp only [gParentAt, gParentAtI, hi, h0, hp]
+    rfl
+  have hgs : GStep prog g (applyEffC r w i l t .allocPipe g) := .parent i r w hr hw hstep
+  refine ⟨_, hgs, .step hrun hgs, { l with st := { t with rxHigh := decide (fdSetSize ≤ r) }, rx := some r, tx := some w }, ?_, rfl, rfl, rfl⟩
+  simp only [applyEffC]
+  rw [get_set _ hi i]
+  simp
+
+/-- **readiness is tested on the connection**: the generated program contains no `selectWait` — `if not rx.poll()` asks the Connection
+    (multiprocess waits with `selectors.PollSelector`: any descriptor number), not `select.select([rx], [], [], 0)`, which raises
+    ValueError for a descriptor number ≥ FD_SETSIZE.  (The translator reads HOW readiness is tested; anything else is not translated.) -/
+theorem readiness_by_connection_poll : prog.all (fun i => i.op != .selectWait) = true := by decide
+
+/-- the current program with the readiness test replaced by a zero-timeout `select()` -/
+def selectProg : List Instr := prog.map (fun x => if x.op == .pollWait then { x with op := .selectWait } else x)
+
+/-- **why the readiness test must not be `select()`**: with `select.select([rx], [], [], 0)` an invocation whose read end got a
+    descriptor number ≥ FD_SETSIZE ends with an error although its callee returns (negation witness for "yields exactly what the function
+    returns"; the clean-up arm of the wait — `except BaseException: terminate, join, close` — at least leaves nothing behind).  With a low
+    descriptor number the same program behaves — which is why no test with few descriptors open can tell the difference. -/
+theorem select_breaks_high_descriptors :
+    (reach selectProg .sendOk false).any (fun s => s.final && s.rxHigh && !s.cancelled && s.out == some .raisedErr) = true ∧
+    (reach selectProg .sendOk false).all (fun s => !s.final || s.rxHigh || s.cancelled || (s.out == some .retOk && s.released)) = true := by
+  decide +kernel
+
+/-- non-vacuity, and the scenario the correspondence check runs with `held = 1100`: two invocations in a process that holds 1100 other
+    descriptors open; their pipes get the numbers 1100 … (both read ends ≥ FD_SETSIZE); the first returns, the second's child dies -/
+def highCs : List (Callee × Bool) := [(.ret 0, false), (.hardDeath .osExit, false)]
+def highSc : List Sched := [⟨1, none, [], 1100, none⟩, ⟨2, none, [], 1100, none⟩]
+def highMidG : G := loopPhase prog highSc (G.init highCs)
+def highG : G := schedule prog highSc 200 [1, 2] (G.init highCs)
+
+example : GRun prog (G.init highCs) highMidG := loopPhase_run _ _ _
+example : highMidG.invs.map (fun l => (l.rx, l.st.rxHigh, l.st.parked)) = [(some 1100, true, true), (some 1101, true, true)] ∧
+    highMidG.tbl.map (fun e => (e.fd, e.owner)) = [(1101, 1), (1100, 0)] := by decide +kernel
+example : GRun prog (G.init highCs) highG := schedule_run _ _ _ _ _
+example : highG.invs.map (fun l => (l.st.out, l.st.rxHigh)) = [(some .retOk, true), (some .raisedCPE, true)] ∧ highG.tbl = [] ∧
+    highG.invs.all (fun l => l.st.released && l.rx.isNone && l.tx.isNone) = true := by decide +kernel
+
+/-! ## the call: what the callable accepts, not what introspection reports -/
+
+/-- **the parent decides nothing about the call**: `in_subprocess` (at decoration time), its wrapper (at call time) and
+    `calculate_in_subprocess` use the callee and the caller's `*args` / `**kwargs` for nothing but passing them on — `@wraps(func)`,
+    `calculate_in_subprocess(func, *args, **kwargs)`, `Process(target=_inner, args=(tx, func, *args), kwargs=kwargs)`.  No
+    `inspect.signature(func)`, no `bind`, no look at the arguments: whether a call fits is found out by `fun(*a, **kw_args)` in the child.
+    Generated from the source on every run. -/
+theorem callee_and_arguments_only_passed_on : PedVerif.Gen.SubprocModule.calleeTouchedInParent = [] := by decide
+
+/-- the facts the translator read off the argument path — the wrapper is `async def` and returns
+    `await calculate_in_subprocess(func, *args, **kwargs)`, the process is made with `args=(tx, func, *args), kwargs=kwargs`, `_inner` runs
+    coroutine functions to their end — make the child run the caller's call: the callee's behaviour if the arguments fit the callable,
+    the TypeError of the call if they do not.  (Does not re-prove when one of them is false.) -/
+theorem childRuns_eq (v a : Bool) (k : Call) (c : Callee) (e : Nat) : childRuns v a k c e = effective k c e := by
+  have h1 : processArgsForwarded = true := by decide
+  have h2 : wrapperForwards = true := by decide
+  have h3 : wrapperIsAsync = true := by decide
+  have h4 : innerRunsCoroutines = true := by decide
+  simp [childRuns, h1, h2, h3, h4]
+
+/-- **faithful result for every callable and every call, whatever introspection reports**: the invocations are made as `xs` says —
+    through the wrapper or through `calculate_in_subprocess`, sync or async callee, `call.fits`: do the arguments fit what the callable
+    accepts, `call.sigFits`: do they fit what `inspect.signature` says (a `functools.wraps` decorator that renames keywords, takes an extra
+    argument or supplies one: the two differ), `callee`: what the callable does once entered.  In every event loop, every interleaving: a
+    finished invocation that was not cancelled hands its caller what the specification allows for that call — the callee's own outcome if
+    the arguments fit, the TypeError of the call itself if they do not; a cancelled one the cancellation.  `call.sigFits` occurs nowhere in
+    the conclusion. -/
+theorem faithful_result_whatever_introspection_reports (xs : List Invocation) (g : G)
+    (hrun : MRun (xs.mapIdx (fun i x => (x.runs i, x.big))) g)
+    (i : Nat) (l : Loc) (hi : g.invs[i]? = some l) (o : Outcome) (ho : l.st.out = some o) :
+    ∃ x, xs[i]? = some x ∧
+      (if l.st.cancelled = true then o = .cancelled else observe l.callee o ∈ Spec.allowedCall x.call.fits x.callee i) ∧
+      l.callee = (if x.call.fits then x.callee else .raiseExc i) := by
+  obtain ⟨⟨c, hc, hlc⟩, hobs⟩ := faithful_result_rounds _ g hrun i l hi o ho
+  rw [List.getElem?_mapIdx] at hc
+  cases hx : xs[i]? with
+  | none => simp [hx] at hc
+  | some x =>
+    simp only [hx, Option.map_some, Option.some.injEq] at hc
+    subst hc
+    simp only [Invocation.runs, childRuns_eq] at hlc
+    refine ⟨x, rfl, ?_, by rw [hlc]; rfl⟩
+    rw [hlc] at hobs ⊢
+    split
+    · next hcn => simpa [hcn] using hobs
+    · next hcn =>
+      simp only [hcn] at hobs
+      cases hf : x.call.fits <;> simp only [effective, hf, Spec.allowedCall] at hobs ⊢
+      · simpa [Spec.allowed] using hobs
+      · simpa using hobs
+
+/-- non-vacuity: a call the introspected signature rejects but the callable accepts (`@rename_kwargs` called with the alias), one it
+    accepts but the callable does not, one neither accepts — three invocations, scheduled to the end -/
+def callsDemo : List Invocation :=
+  [⟨true, false, ⟨true, false⟩, .ret 0, false⟩, ⟨true, true, ⟨false, true⟩, .ret 1, false⟩, ⟨false, false, ⟨false, false⟩, .hardDeath .osExit, false⟩]
+def callsG : G :=
+  schedule prog [⟨1, none, [], 0, none⟩, ⟨0, none, [], 0, none⟩, ⟨1, none, [], 0, none⟩] 300 [1, 0, 1]
+    (G.newLoop (G.init []) (callsDemo.mapIdx (fun i x => (x.runs i, x.big))))
+example : MRun ([] ++ callsDemo.mapIdx (fun i x => (x.runs i, x.big))) callsG :=
+  mrun_trans_grun (.newLoop _ .start (by simp [G.init])) (schedule_run _ _ _ _ _)
+example : callsG.invs.map (fun l => l.st.out.map (observe l.callee)) = [some (.returns 0), some (.raises 1), some (.raises 2)] := by
+  decide +kernel
+
 /-- non-vacuity, and the scenario the gated callees of the correspondence check run: invocation 1's child dies without a result
     (`os._exit`); the callees of invocations 0, 2, 3 end only after invocation 1 has finished (`gate := [1]`).  Scheduled with the gates
     respected, invocation 1 raises ChildProcessError, then the others return their own values; nothing is left. -/
 def gatedCs : List (Callee × Bool) := [(.ret 0, false), (.hardDeath .osExit, false), (.raiseExc 2, false), (.ret 3, true)]
-def gatedSc : List Sched := [⟨0, none, [1]⟩, ⟨0, none, []⟩, ⟨0, none, [1]⟩, ⟨1, none, [1]⟩]
+def gatedSc : List Sched := [⟨0, none, [1], 0, none⟩, ⟨0, none, [], 0, none⟩, ⟨0, none, [1], 0, none⟩, ⟨1, none, [1], 0, none⟩]
 def gatedG : G := schedule prog gatedSc 400 [0, 0, 0, 1] (G.init gatedCs)
 /-- the state in which the gated callees are still waiting: invocation 1 has finished, none of the others has -/
 def gatedMidG : G := schedule prog gatedSc 4 [0, 0, 0, 1] (G.init gatedCs)
@@ -1154,14 +1631,9 @@ example : gatedMidG.invs.map (fun l => (l.st.out, l.st.cpc)) =
 /-- non-vacuity: three event loops, in each more invocations than the first had, every kind of callee; scheduled to the end -/
 def roundsCs1 : List (Callee × Bool) := [(.ret 0, false), (.raiseExc 1, false)]
 def roundsCs2 : List (Callee × Bool) := [(.hardDeath .signal, false), (.ret 3, true), (.ret 4, false)]
-def roundsSc : List Sched := [⟨1, none, []⟩, ⟨1, none, []⟩, ⟨1, none, []⟩, ⟨2, none, []⟩, ⟨0, some 3, []⟩]
+def roundsSc : List Sched := [⟨1, none, [], 0, none⟩, ⟨1, none, [], 0, none⟩, ⟨1, none, [], 0, none⟩, ⟨2, none, [], 0, none⟩, ⟨0, some 3, [], 0, none⟩]
 def roundsG1 : G := schedule prog roundsSc 400 [1, 1, 1, 2, 0] (G.newLoop (G.init []) roundsCs1)
 def roundsG2 : G := schedule prog roundsSc 400 [1, 1, 1, 2, 0] (G.newLoop roundsG1 roundsCs2)
-
-theorem mrun_trans_grun {cs : List (Callee × Bool)} {g g' : G} (h : MRun cs g) (h2 : GRun prog g g') : MRun cs g' := by
-  induction h2 with
-  | refl => exact h
-  | step _ hs ih => exact .step ih hs
 
 example : roundsG1.invs.all (fun l => l.st.final) = true := by decide +kernel
 example : MRun (([] ++ roundsCs1) ++ roundsCs2) roundsG2 := by
@@ -1179,45 +1651,46 @@ example : roundsG2.invs.map (fun l => l.st.out) =
 /-- `calculate_in_subprocess` before commit 47f1196 (the translator's output for that source): the parent keeps its copy
     of the write end until the very end, no EOF handler, no `finally` -/
 def oldProg : List Instr := [
-  ⟨.pipe, none, none⟩, ⟨.start, none, none⟩, ⟨.addReader, none, none⟩, ⟨.pollWait, none, none⟩,
-  ⟨.removeReader, none, none⟩, ⟨.clearEvent, none, none⟩, ⟨.recv, none, none⟩, ⟨.join, none, none⟩,
-  ⟨.closeRx, none, none⟩, ⟨.closeTx, none, none⟩, ⟨.raiseIfError, none, none⟩, ⟨.ret, none, none⟩]
+  ⟨.pipe, none, none, none⟩, ⟨.start, none, none, none⟩, ⟨.addReader, none, none, none⟩, ⟨.pollWait, none, none, none⟩,
+  ⟨.removeReader, none, none, none⟩, ⟨.clearEvent, none, none, none⟩, ⟨.recv, none, none, none⟩, ⟨.join, none, none, none⟩,
+  ⟨.closeRx, none, none, none⟩, ⟨.closeTx, none, none, none⟩, ⟨.raiseIfError, none, none, none⟩, ⟨.ret, none, none, none⟩]
 
 def oldRank : List Nat := [12, 11, 10, 9, 8, 7, 6, 5, 4, 3, 2, 1]
 
 /-- the current program with every `remove_reader` turned into a no-op -/
 def noRemoveProg : List Instr :=
-  prog.mapIdx (fun i x => if x.op == .removeReader then ⟨.jump (i + 1), none, none⟩ else x)
+  prog.mapIdx (fun i x => if x.op == .removeReader then ⟨.jump (i + 1), none, none, none⟩ else x)
 
-def deadG : G := schedule oldProg [⟨1, none, []⟩] 64 [1] (G.init [(.hardDeath .osExit, false)])
-def staleG : G := schedule noRemoveProg [⟨1, none, []⟩, ⟨1, some 0, []⟩] 200 [1, 1] (G.init [(.ret 0, false), (.ret 1, false)])
+def deadG : G := schedule oldProg [⟨1, none, [], 0, none⟩] 64 [1] (G.init [(.hardDeath .osExit, false)])
+def staleG : G := schedule noRemoveProg [⟨1, none, [], 0, none⟩, ⟨1, some 0, [], 0, none⟩] 200 [1, 1] (G.init [(.ret 0, false), (.ret 1, false)])
 
-/-- before the repair a normal run was fine … -/
-theorem unfixed_normal_ok : localCheck oldProg oldRank (.sendOk, false) = true ∧ localCheck oldProg oldRank (.sendErr, false) = true := by
+/-- before the repair a normal run was fine (as long as nobody cancels the awaiting task) … -/
+theorem unfixed_normal_ok : sysCheck oldProg oldRank .sendOk false = true ∧ sysCheck oldProg oldRank .sendErr false = true := by
   decide +kernel
 
 /-- … but with a child that dies before sending, the local machine has a reachable state that is not final and has no
     successor: {parent suspended in the wait, child exited, no message, parent's write end OPEN, reader registered,
     event unset} — the observed hang -/
 theorem unfixed_deadlock_local :
-    (reach oldProg .die false).any (fun s => !s.final && (next oldProg .die false s).isEmpty && s.parked && s.parentTx &&
+    (reachSys oldProg .die false).any (fun s => !s.final && (sysNext oldProg .die false s).isEmpty && s.parked && s.parentTx &&
       s.cpc == .exited && s.buf == .empty) = true := by
   decide +kernel
 
 /-- **negation witness for the old protocol** in the global machine: a run of one invocation whose child calls
-    `os._exit` ends in a state where the invocation is pending and *no* step of the system is enabled -/
+    `os._exit` ends in a state where the invocation is pending and *no* step of the system is enabled — the only thing that can still
+    happen is that the environment cancels the awaiting task -/
 theorem unfixed_deadlock :
     ∃ g, GRun oldProg (G.init [(.hardDeath .osExit, false)]) g ∧ (∃ l ∈ g.invs, l.st.final = false) ∧
-      ∀ g', ¬ GStep oldProg g g' := by
+      ∀ g', GStep oldProg g g' → ∃ i, gCancel oldProg i g = some g' := by
   refine ⟨deadG, schedule_run _ _ _ _ _, ?_, ?_⟩
   · have : deadG.invs.any (fun l => !l.st.final) = true := by decide +kernel
     obtain ⟨l, hl, h⟩ := List.any_eq_true.1 this
     exact ⟨l, hl, by simpa using h⟩
   · intro g' h
-    have hm := gstep_mem_gsucc h
     have he : gsucc oldProg deadG = [] := by decide +kernel
-    rw [he] at hm
-    simp at hm
+    rcases gstep_gsucc_ne_nil h with h1 | h1
+    · exact absurd he h1
+    · exact h1
 
 /-- **why the reader must be removed before the fd is closed**: with `remove_reader` dropped, two invocations *one after
     the other* (the second re-uses the fd number of the first) end with the second one pending for ever — its
@@ -1225,7 +1698,7 @@ theorem unfixed_deadlock :
     (epoll forgets closed fds), the damage is a hang. -/
 theorem stale_reader_hang :
     ∃ g, GRun noRemoveProg (G.init [(.ret 0, false), (.ret 1, false)]) g ∧ (∃ l ∈ g.invs, l.st.final = false) ∧
-      (∃ e ∈ g.tbl, e.live = false) ∧ ∀ g', ¬ GStep noRemoveProg g g' := by
+      (∃ e ∈ g.tbl, e.live = false) ∧ ∀ g', GStep noRemoveProg g g' → ∃ i, gCancel noRemoveProg i g = some g' := by
   refine ⟨staleG, schedule_run _ _ _ _ _, ?_, ?_, ?_⟩
   · have : staleG.invs.any (fun l => !l.st.final) = true := by decide +kernel
     obtain ⟨l, hl, h⟩ := List.any_eq_true.1 this
@@ -1234,10 +1707,10 @@ theorem stale_reader_hang :
     obtain ⟨e, he, h⟩ := List.any_eq_true.1 this
     exact ⟨e, he, by simpa using h⟩
   · intro g' h
-    have hm := gstep_mem_gsucc h
     have he : gsucc noRemoveProg staleG = [] := by decide +kernel
-    rw [he] at hm
-    simp at hm
+    rcases gstep_gsucc_ne_nil h with h1 | h1
+    · exact absurd he h1
+    · exact h1
 
 /-! ## non-vacuity: concrete runs that meet the hypotheses of the theorems above -/
 
@@ -1245,7 +1718,7 @@ theorem stale_reader_hang :
 def demoCs : List (Callee × Bool) :=
   [(.ret 0, false), (.raiseExc 1, false), (.hardDeath .osExit, false), (.ret 3, true), (.raiseBase 4, false), (.midSendDeath 5, true)]
 def demoG : G :=
-  schedule prog [⟨2, none, []⟩, ⟨1, none, []⟩, ⟨1, some 0, []⟩, ⟨0, none, []⟩, ⟨3, some 3, []⟩, ⟨0, none, []⟩] 400 [2, 1, 1, 0, 3, 0] (G.init demoCs)
+  schedule prog [⟨2, none, [], 0, none⟩, ⟨1, none, [], 0, none⟩, ⟨1, some 0, [], 0, none⟩, ⟨0, none, [], 0, none⟩, ⟨3, some 3, [], 0, none⟩, ⟨0, none, [], 0, none⟩] 400 [2, 1, 1, 0, 3, 0] (G.init demoCs)
 
 /-- `GRun prog (G.init demoCs) demoG` holds, all six have finished, with the outcomes the specification names -/
 example : GRun prog (G.init demoCs) demoG := schedule_run _ _ _ _ _
@@ -1255,9 +1728,22 @@ example : demoG.tbl = [] ∧ demoG.invs.all (fun l => l.st.released && l.rx.isNo
 /-- the guard of `other_tasks_run_partial` is met by these states -/
 example : promptExit demoG = true := by decide +kernel
 /-- a state in the middle of a run: three invocations pending, three selector entries at three different fd numbers -/
-def midG : G := loopPhase prog [⟨1, none, []⟩, ⟨1, none, []⟩, ⟨1, none, []⟩] (G.init [(.ret 0, false), (.ret 1, false), (.unpicklable, false)])
+def midG : G := loopPhase prog [⟨1, none, [], 0, none⟩, ⟨1, none, [], 0, none⟩, ⟨1, none, [], 0, none⟩] (G.init [(.ret 0, false), (.ret 1, false), (.unpicklable, false)])
 example : GRun prog (G.init [(.ret 0, false), (.ret 1, false), (.unpicklable, false)]) midG := loopPhase_run _ _ _
 example : midG.tbl.map (fun e => (e.fd, e.owner)) = [(2, 2), (1, 1), (0, 0)] ∧ midG.invs.all (fun l => l.st.parked) = true := by
+  decide +kernel
+
+/-- **the object in the pipe is the object the caller gets**: the pipe carries WHICH object was sent (`Obj.own`: the one the callee produced),
+    `recv` copies it into `result`, `raise result.exception` / `return result` hand over what `result` holds — `local_ok` checks the outcome
+    against that token.  Witness that the check can fail: the current program with `result` overwritten by anything else before it is
+    returned hands the caller a foreign object (`retForeign`), which `local_ok` rejects. -/
+def overwriteProg : List Instr := prog.map (fun x => if x.op == .raiseIfError then { x with op := .setForeign } else x)
+
+theorem payload_must_arrive :
+    (reach prog .sendOk false).all (fun s => !s.final || s.cancelled || (s.res == .ok .own && s.out == some .retOk)) = true ∧
+    (reach prog .sendErr true).all (fun s => !s.final || s.cancelled || (s.res == .err .own && s.out == some .raisedCallee)) = true ∧
+    (reach overwriteProg .sendOk false).any (fun s => s.final && !s.cancelled && s.out == some .retForeign) = true ∧
+    localCheck overwriteProg progRank (.sendOk, false) = false := by
   decide +kernel
 
 /-- what the translator read off the rest of the module (the child is an ordinary, non-daemonic process: the callee may start
